@@ -30,7 +30,8 @@ partial def showOut : Out → String
   | .ents es => showMap es
   | .dump es kids root =>
     "E=" ++ showMap es ++
-      String.join (kids.map (fun k => " C" ++ String.ofList ((toHex k.1).toList.take 8) ++ "=" ++ showMap k.2))
+      String.join (kids.map (fun k => " C" ++ hex k.1 ++ "=" ++
+        (match k.2 with | some m => showMap m | none => "!")))
       ++ " R=" ++ toHex root
   | .many l => joinS "/" (l.map showOut)
   | .const b => hex b
@@ -113,12 +114,15 @@ def H : Bytes → Bytes := Blake2b.hash256
 def Hc : Entries → Bytes := specRoot Ver.v0 H
 
 def memDumper : Dumper Mem where
-  kids := fun m => m.kids.map (fun e => (e.1, sortEnt (Trie.entries e.2)))
+  kids := fun m =>
+    ((sortEnt (Trie.entries m.main)).filter (fun e => Logical.isChildKey e.1)).map (fun e =>
+      let ck := e.1.drop childPrefix.length
+      (ck, match Mem.getChild m ck with
+        | .present c => some (sortEnt (Trie.entries c))
+        | _ => none))
 
 def idealDumper : Dumper Logical where
-  kids := fun l =>
-    (l.kids.map (fun e => (Hc e.2, e.2.map (fun x => (x.1, some x.2))))).mergeSort
-      (fun a b => !(klt b.1 a.1))
+  kids := fun l => l.kids.map (fun e => (e.1, some (e.2.map (fun x => (x.1, some x.2)))))
 
 def runM (ops : List Op) : List String :=
   ((runTS (memBackend H) memDumper Diff.sortedOrder { base := Mem.empty, txs := [] } ops).2).map showOut
@@ -231,7 +235,12 @@ def findTag (hdr : String) : Scan → List Op → String
     let dumpM := showOut (.dump (bM.entries xm.1.base) (memDumper.kids xm.1.base) (bM.hash xm.1.base))
     let dumpI := showOut (.dump (bI.entries xi.1.base) (idealDumper.kids xi.1.base) (bI.hash xi.1.base))
     if showOut xm.2 != showOut xi.2 || dumpM != dumpI || xm.1.txs != xi.1.txs then
-      backendTag hdr sc0 op xm.1 (showOut xm.2)
+      match op, xm.2, xi.2 with
+      | .snap x y sep, .many a, .many b =>
+        match firstDiffRead (snapReads x y sep) a b with
+        | some (rop, oa, _) => backendTag hdr sc0 rop xm.1 (showOut oa)
+        | none => backendTag hdr sc0 op xm.1 (showOut xm.2)
+      | _, _, _ => backendTag hdr sc0 op xm.1 (showOut xm.2)
     else if showOut xi.2 != showOut xs.2 then
       match op, xi.2, xs.2 with
       | .snap x y sep, .many a, .many b =>
